@@ -206,6 +206,11 @@ func (m *mWorld) processErrors(hash bool) {
 		if why == "" && (peer.errored || peer.stopped || (len(fresh[1-i]) > 0 && cause[1-i] != "")) {
 			why = "peer-down"
 		}
+		if why == "" && e.stopped {
+			// the harness stopped this very end: a send that was in flight fails on the connection
+			// Stop closed and the error callback still fires once (1 run in 200 000)
+			why = "own-stop"
+		}
 		if why == "" {
 			w.violate("spurious-error", "connection failed although nothing was touched, oversized or closed", fmt.Sprintf("%s: %s", e.name, e.errText))
 			return
